@@ -25,7 +25,8 @@ ASSUMPTIONS = [
     "files are read back through the OS after each write (no FileStream "
     "internals are consulted)",
     "size clause is only asserted where every write is shorter than "
-    "max_bytes, is ASCII (bytes == characters) and no time_format is set",
+    "max_bytes, is ASCII or handed over as bytes (so that its size in bytes "
+    "is known) and no time_format is set",
     "datetime.now is pinned through the documented FileStream.now seam",
     "a latin-1 locale is emulated by a FileStream subclass whose _open() "
     "passes encoding='latin-1'; where the file's encoding cannot represent "
@@ -92,7 +93,10 @@ def execute(case):
                 continue
             text = op[1]
             raw = text.encode('utf8') if op[2] == 'b' else text
-            if len(raw) >= mb or not text.isascii():
+            # the size clause is claimed for writes whose size the stream
+            # can know in bytes: ASCII text, or any text handed over as bytes
+            # (what the daemon's redirector always does)
+            if len(raw) >= mb or (op[2] != 'b' and not text.isascii()):
                 small = False
             stream({'data': raw, 'pid': 4242, 'name': 'stdout'})
             if tf is None:
